@@ -43,7 +43,8 @@ Definition proj_c18 (a : action) : bool :=
   | _ => false
   end.
 
-Definition run_c02 := run_sm proj_c02 mon_true.
+Definition mon_c02 (c : smcase) (t : list action) : bool := match c with KSm _ _ _ cup _ _ _ _ => accepts step2 (init2 cup) t end.
+Definition run_c02 := run_sm proj_c02 mon_c02.
 Definition run_c04 := run_sm proj_c04 mon_true.
 Definition mon_c05 (c : smcase) (t : list action) : bool := match c with KSm ep _ _ _ _ _ _ _ => accepts step5 (init5 ep) t end.
 Definition run_c05 := run_sm proj_c05 mon_c05.
